@@ -836,7 +836,10 @@ class TransferManager(BaseManager):
             if transfer.is_upload():
                 await transfer.state.fail()
             else:
-                await transfer.state.incomplete()
+                # The transfer is still initializing, there is no transition to
+                # incomplete from that state: back to the queue, the uploader
+                # will make a new attempt
+                await transfer.state.queue(remotely=transfer.remotely_queued)
             return
 
         except asyncio.CancelledError:
